@@ -1,15 +1,47 @@
-//! kv-auth: conformance harness crate (see /verif/DESIGN.md).
+//! kv-auth: conformance harness for C12 (UpDownAuth.tla) and C15
+//! (TaExchange.tla), see /verif/DESIGN.md.
 #![allow(dead_code)]
 
 #[path = "../../harness/src/common.rs"]
 mod common;
+mod world;
+mod updown;
+mod ta;
+
+use std::path::PathBuf;
+
+fn arg(args: &[String], name: &str) -> Option<String> {
+    args.iter().position(|a| a == name).and_then(|i| args.get(i + 1)).cloned()
+}
+
+fn flag(args: &[String], name: &str) -> bool {
+    args.iter().any(|a| a == name)
+}
 
 fn main() {
     common::install_panic_hook();
     let args: Vec<String> = std::env::args().collect();
-    match args.get(1).map(|s| s.as_str()).unwrap_or("") {
+    let cmd = args.get(1).map(|s| s.as_str()).unwrap_or("");
+    let behaviours = arg(&args, "--in").map(PathBuf::from);
+    let out = arg(&args, "--out").map(PathBuf::from);
+    let workdir = arg(&args, "--work").map(PathBuf::from);
+    match cmd {
+        "run-updown" => {
+            updown::run(
+                &behaviours.unwrap(), &out.unwrap(), &workdir.unwrap(),
+                arg(&args, "--universe").map(PathBuf::from).as_deref(),
+            );
+        }
+        "run-ta" => {
+            ta::run(
+                &behaviours.unwrap(), &out.unwrap(), &workdir.unwrap(),
+            );
+        }
         _ => {
-            eprintln!("usage: kv-auth <subcommand> --in <behaviours.ndjson> --out <trace.ndjson> --work <dir>");
+            eprintln!(
+                "usage: kv-auth <run-updown|run-ta> --in <behaviours.ndjson> \
+                 --out <trace.ndjson> --work <dir>"
+            );
             std::process::exit(2);
         }
     }
